@@ -86,11 +86,58 @@ func genCacheCase(t *rapid.T) CacheCase {
 			pre = append(pre, COp{Kind: "putNew", K: c.Limit + j, S: 1})
 		}
 		c.Ops = append(pre, c.Ops...)
+	} else if rapid.IntRange(0, 3).Draw(t, "stirAndFlush") == 0 {
+		// at the very start: fill exactly to the limit, stir the recency order
+		// with a few Gets, Removes and replacing Puts of present keys (each moves
+		// entries inside the store), then flush everything with fresh keys, so
+		// that the complete eviction order is observed
+		var pre []COp
+		for k := 0; k < c.Limit; k++ {
+			pre = append(pre, COp{Kind: "put", K: k, S: 1})
+		}
+		for j := rapid.IntRange(2, 7).Draw(t, "stirs"); j > 0; j-- {
+			kind := rapid.SampledFrom([]string{"get", "get", "remove", "put", "putNew"}).Draw(t, "stirKind")
+			pre = append(pre, COp{Kind: kind, K: rapid.IntRange(0, c.Limit+2).Draw(t, "stirKey"), S: 1})
+		}
+		for j := 0; j < c.Limit+1 && j < 14; j++ {
+			pre = append(pre, COp{Kind: "putNew", K: c.Limit + 3 + j, S: 1})
+		}
+		c.Ops = append(pre, c.Ops...)
 	}
 	return c
 }
 
-func init() { vk.Register("C08", "hist", runC08) }
+func init() {
+	vk.Register("C08", "hist", runC08)
+	vk.Register("C08", "longrun", runLongRun)
+}
+
+// TestC08LongRun: billions of accesses on one cache (thorough tier; the quick
+// tier runs a short version).  Shard k of the thorough tier takes the k-th length.
+func TestC08LongRun(t *testing.T) {
+	h := vk.Start(t, "C08", "longrun")
+	h.Patience(30)
+	cases := []LongRunCase{{Gets: 3_000_000}}
+	if h.Thorough() {
+		cases = []LongRunCase{{Gets: 1<<31 + 1000}, {Gets: 1<<32 + 1000}}
+		cases = cases[h.Shard%len(cases) : h.Shard%len(cases)+1]
+	}
+	slot := h.Slot()
+	tl := vk.NewTally()
+	for _, c := range cases {
+		o := &vk.Obs{}
+		slot.Enter(c)
+		msg := vk.Guard(func() string { return runLongRun(c, o) })
+		slot.Leave()
+		if msg != "" {
+			p := h.Fail(c, msg)
+			t.Fatalf("VK-VIOLATION property=C08 leg=longrun replay=%s\n%s", p, msg)
+		}
+		tl.AddObs(o)
+		h.Sample(c, o.NT)
+	}
+	h.MergeTally(tl)
+}
 
 func TestC08Hist(t *testing.T) {
 	h := vk.Start(t, "C08", "hist")
